@@ -22,7 +22,9 @@ FloatValid == {<<"1", 1, 1>>, <<"-1", -1, 1>>, <<"0", 0, 1>>, <<"1.5", 3, 2>>, <
 FloatOther == {"", "abc", "1.5x", "1,5", "1 5", "1e", "e5", "1.2.3", "--1", "1-", "1e5.5", "1d3", ".", "-", "1e+", "x1",
                "+1.5", "5.", ".5", "nan", "inf", "-inf", "NaN", "0x10", "1e400", "1e-400", "true", "1f", "1.0f"}
 VecTable == {"1 2 3", "1,2,3", "1, 2, 3", "-1 0 7", "1\n2\t3", " 1  2   3 ", "1 2", "1 2 3 4", "1 2 x", "1 2 3.5", "1,,2,3", "1 2 3,", "+1 2 3",
-             "1.5 2 3e1", "0.5,0.25", "1e", "7", "a b,c", "1.5 -2 0.25", "1.5 2", "1 2 3 x", "x,y\tz\nw", "-1e-3 2.5e+2 7"}
+             "1.5 2 3e1", "0.5,0.25", "1e", "7", "a b,c", "1.5 -2 0.25", "1.5 2", "1 2 3 x", "x,y\tz\nw", "-1e-3 2.5e+2 7",
+             \* every position of a multi-word literal is checked: the bad word first / in the middle / last
+             "x 2 3", "1 x 3", "1 2 x", "x,2,3", "1,x,3", "1.5 x 3", "x 2.5 3", "1e 2 3", "1 2e 3", "1 2 3e", "1 2.5 3", "2.5 1 3", "1 2 3 x 5", "x 1"}
 Table == VecTable \cup BoolTable \cup {p[1] : p \in FloatValid} \cup FloatOther
 
 \* two steps (first character, then the rest) so that TLC's workers share the strings
